@@ -89,6 +89,8 @@ let answer (line : string) : unit =
                                               | PUnmodelled -> ["!U"])) in
     print_endline ("S:" ^ String.concat ";" (List.map one stmts) ^ "|" ^ (match err with None -> "-" | Some e -> exn_name e))
   | ["T"; h] -> print_endline (toks_s (unhex h))
+  | ["M"; h] ->     (* model_lines: str.splitlines followed by strip_comments, line by line *)
+    print_endline ("M:" ^ String.concat ";" (List.map hex (model_lines (unhex h))))
   | ["N"; h] ->     (* n_emitted of the accepted model (check_syntax=False): what build_model_definition emits *)
     print_endline (match parse_model_nocheck (unhex h) with
                    | POk syms -> string_of_int (int_of_nat (n_emitted syms))
